@@ -102,7 +102,89 @@ def probe(d):
         raise RuntimeError("gen/c16_layout: sexp_reset_weak_references lost its early return")
     after = wbody[wbody.index(pre) + len(pre):]
     extras_first = after.startswith("sexp_mark_weak_extras(ctx);")
-    return dict(types=types, consts=consts, order=order, extras_first=extras_first)
+    return dict(types=types, consts=consts, order=order, extras_first=extras_first, scan=scan_skeleton(sq), closefd=close_fd_facts(d))
+
+
+# ---- the control skeleton of sexp_mark_weak_extras (the ephemeron scan): what coq/C16/Model.v eph_loop / eph_pass /
+# eph_visit / mark_extras mirror.  Read from the squeezed text of the function; every piece is recognised literally.
+SCAN_PIECES = [
+    # (name, text that must occur exactly once in the body)
+    ("walk_heaps", "for(h=sexp_context_heap(ctx);h;h=h->next){p=sexp_heap_first_block(h);q=h->free_list;end=sexp_heap_end(h);while(p<end){"),
+    ("skip_free", "for(r=q->next;r&&((char*)r<(char*)p);q=r,r=r->next);if((char*)r==(char*)p){p=(sexp)(((char*)p)+r->size);continue;}"),
+    ("visit_marked_weak", "if(sexp_valid_object_p(ctx,p)&&sexp_markedp(p)){t=sexp_object_type(ctx,p);if(sexp_type_weak_base(t)>0&&sexp_type_weak_len_extra(t)>0){"),
+    ("live_test", "live_p=0;v=(sexp*)((char*)p+sexp_type_weak_base(t));len=sexp_type_num_weak_slots_of_object(t,p);"
+                  "for(i=0;i<len;i++)if(!(v[i]&&sexp_pointerp(v[i])&&!sexp_markedp(v[i])))live_p=1;"),
+    ("mark_extras", "if(live_p){len+=sexp_type_weak_len_extra(t);for(;i<len;i++){if(v[i]&&sexp_pointerp(v[i])&&!sexp_markedp(v[i])){sexp_mark(ctx,v[i]);"),
+    ("advance", "p=(sexp)(((char*)p)+sexp_heap_align(sexp_allocated_bytes(ctx,p)));"),
+]
+RERUN_ATOMS = {"sexp_markedp(v[i])": 1}       # conjuncts of the condition under which another pass is requested
+
+
+def scan_skeleton(sq):
+    body = function_body(sq, "staticvoidsexp_mark_weak_extras(sexpctx)")
+    m = re.match(r"^\{inti,len,live_p,changed_p;sexp_heaph;sexpp,t,end,\*v;sexp_free_listq,r;do\{changed_p=0;(.*)\}while\(([^;]*)\);\}$", body)
+    loop = 1 if (m and m.group(2) == "changed_p") else 0
+    inner = m.group(1) if m else body
+    pieces = [1 if inner.count(text) == 1 else 0 for _, text in SCAN_PIECES]
+    sets = re.findall(r"changed_p=([^;]*);", inner)
+    conds = re.findall(r"sexp_mark\(ctx,v\[i\]\);if\(((?:[^()]|\((?:[^()]|\([^()]*\))*\))*)\)changed_p=1;", inner)
+    if len(sets) != 1 or sets[0] != "1" or len(conds) != 1:
+        rerun = [0]
+        cond_text = "changed_p is assigned %d times in the walk" % len(sets)
+    else:
+        cond_text = conds[0]
+        rerun = [RERUN_ATOMS.get(c, 0) for c in _conjuncts(cond_text)]
+    # nothing else in the function: remove the recognised pieces and the rerun statement, only closing braces may remain
+    rest = inner
+    for _, text in SCAN_PIECES:
+        rest = rest.replace(text, "", 1)
+    rest = re.sub(r"if\(((?:[^()]|\((?:[^()]|\([^()]*\))*\))*)\)changed_p=1;", "", rest, count=1)
+    nothing_else = 1 if re.fullmatch(r"\}*", rest) else 0
+    return dict(loop=loop, pieces=pieces, rerun=rerun, cond_text=cond_text, nothing_else=nothing_else)
+
+
+def _conjuncts(t):
+    out, depth, cur = [], 0, ""
+    i = 0
+    while i < len(t):
+        c = t[i]
+        if c == "(":
+            depth += 1
+        elif c == ")":
+            depth -= 1
+        if depth == 0 and t.startswith("&&", i):
+            out.append(cur)
+            cur = ""
+            i += 2
+            continue
+        cur += c
+        i += 1
+    out.append(cur)
+    return out
+
+
+def close_fd_facts(d):
+    """lib/chibi/filesystem.stub: how (close-file-descriptor x) is bound.  Model (History.v OCloseFd): on a fileno object
+    it clears sexp_fileno_openp before close(fd), so that the object's finaliser does not close the number again."""
+    src = open(os.path.join(d, "lib", "chibi", "filesystem.stub")).read()
+    code = re.sub(r"^\s*;.*$", "", src, flags=re.M)
+    sqz = re.sub(r"\s+", "", re.sub(r"/\*.*?\*/", "", code, flags=re.S))
+    m = re.search(r'\(define-cerrno\(close-file-descriptor"([A-Za-z0-9_]+)"\)\(([a-z]+)\)\)', sqz)
+    if not m:
+        raise RuntimeError("gen/c16_layout: cannot find the binding of close-file-descriptor in filesystem.stub")
+    fn = m.group(1)
+    marks = 0
+    if fn != "close":
+        i = sqz.find("int" + fn + "(sexpx){")
+        if i >= 0:
+            body = function_body(sqz[i:], "int" + fn + "(sexpx)")
+            k = body.find("if(sexp_filenop(x)){")
+            if k >= 0:
+                branch = function_body(body[k:], "if(sexp_filenop(x))")
+                pos_mark, pos_fd = branch.find("sexp_fileno_openp(x)=0;"), branch.find("fd=sexp_fileno_fd(x);")
+                if pos_mark >= 0 and pos_fd >= 0 and body.count("returnclose(fd);") == 1:
+                    marks = 1
+    return dict(fn=fn, marks=marks)
 
 
 PH = {"mark": 1, "weak": 3, "finalize": 4, "sweep": 5}
@@ -134,7 +216,20 @@ def coq_text(v):
              "Definition finalised_types : list (Z * Z) := [" + "; ".join("(%d, %d)" % (t[0], kind[t[10]]) for t in fin) + "].",
              "Definition iport_tag : Z := %d." % iport, "Definition fileno_tag : Z := %d." % fileno,
              "(* phases of sexp_gc in source order: 1 mark from the context, 2 sexp_mark_weak_extras, 3 weak reset, 4 finalise, 5 sweep *)",
-             "Definition gc_phases : list Z := [" + "; ".join(str(p) for p in phases) + "]."]
+             "Definition gc_phases : list Z := [" + "; ".join(str(p) for p in phases) + "].",
+             "(* sexp_mark_weak_extras, control skeleton read from gc.c:",
+             "   scan_loop = 1: do { changed_p = 0; <walk> } while (changed_p);",
+             "   scan_pieces: 1 per literal piece found exactly once: " + ", ".join(n for n, _ in SCAN_PIECES) + ";",
+             "   scan_rerun: the conjuncts of the condition under which changed_p is set after sexp_mark(ctx, v[i])",
+             "     (1 = sexp_markedp(v[i]); 0 = anything else); source text: " + v["scan"]["cond_text"].replace("*)", "* )").replace("(*", "( *"),
+             "   scan_nothing_else = 1: the function contains nothing besides these pieces *)",
+             "Definition scan_loop : Z := %d." % v["scan"]["loop"],
+             "Definition scan_pieces : list Z := [" + "; ".join(str(x) for x in v["scan"]["pieces"]) + "].",
+             "Definition scan_rerun : list Z := [" + "; ".join(str(x) for x in v["scan"]["rerun"]) + "].",
+             "Definition scan_nothing_else : Z := %d." % v["scan"]["nothing_else"],
+             "(* lib/chibi/filesystem.stub: (close-file-descriptor x) is bound to the C function " + v["closefd"]["fn"] + ";",
+             "   1 = on a fileno object it clears sexp_fileno_openp and then closes sexp_fileno_fd *)",
+             "Definition close_fd_marks_fileno_closed : Z := %d." % v["closefd"]["marks"]]
     return "\n".join(lines) + "\n"
 
 
